@@ -147,7 +147,7 @@ func checkC17(c *ctx) {
 	c.Assumptions = append(c.Assumptions, "fsync/close failures are modelled but cannot be injected portably; a write beyond the limit is cut short and fails (what the kernel does under RLIMIT_FSIZE and what the failing writer does)")
 	savedBuf := zap.DefaultFileMergerBufferSize
 	defer func() { zap.DefaultFileMergerBufferSize = savedBuf }()
-	nIn := c.n(3, 40)
+	nIn := c.n(3, 25)
 	for i := 0; i < nIn; i++ {
 		o := zh.RandOpts(c.R, 3+c.R.Intn(10), "w")
 		if i%3 == 1 {
@@ -457,7 +457,7 @@ func checkC18(c *ctx) {
 	c.Assumptions = append(c.Assumptions, "the poll points themselves are not observable without editing the merge; the model (Cancel.v) quantifies over every placement of polls and of the close")
 	savedBuf := zap.DefaultFileMergerBufferSize
 	defer func() { zap.DefaultFileMergerBufferSize = savedBuf }()
-	nIn := c.n(5, 150)
+	nIn := c.n(5, 80)
 	for i := 0; i < nIn; i++ {
 		pool := genMergeInputs(c, 2+c.R.Intn(2), true)
 		mc := genMergeCase(c, pool)
